@@ -49,7 +49,13 @@ namespace rkcommon {
         // would wrap around (a count above INT_MAX is not negative) and a
         // count of 2^32 or more does not fit, such a loop runs as a sequence
         // of task sets
+#if defined(RKCOMMON_VERIF) && defined(RKCOMMON_VERIF_TASKSET_MAX)
+        // verification knob: a small bound lets short loops take the
+        // sequence-of-task-sets path
+        const uint32_t maxSetSize = RKCOMMON_VERIF_TASKSET_MAX;
+#else
         const uint32_t maxSetSize = 1u << 30;
+#endif
 
         INDEX_T first = 0;
         while (first < nTasks) {
